@@ -98,10 +98,8 @@ func RunScanProtocol(c *vc.Ctx) {
 		c.Inconclusive("proto: " + err.Error())
 		return
 	}
-	engines := []string{[]string{"mem", "pebble"}[int(c.Seed)%2]}
-	if c.Thorough() {
-		engines = []string{"mem", "pebble"}
-	}
+	// pebble first: a reverse chain that fails on mem only is attributed to the mem engine
+	engines := []string{"pebble", "mem"}
 	for ei, eng := range engines {
 		var specs []NSSpec
 		for n := 1; n <= 4; n++ {
@@ -285,6 +283,7 @@ func aboveAllCursor(n int) string {
 type chainVerdict struct {
 	what   string // missing, duplicate, foreign, order, noterm, match, cursor-reuse, error
 	detail string
+	a, b   string // order: b followed a
 }
 
 // judgeStream checks exactly-once / containment / order of a complete chain.
@@ -303,13 +302,13 @@ func judgeStream(got []string, expected []string, all []string, partOf func(stri
 	}
 	for g, k := range seen {
 		if k > 1 {
-			return &chainVerdict{"duplicate", fmt.Sprintf("element %q returned %d times", g, k)}
+			return &chainVerdict{what: "duplicate", detail: fmt.Sprintf("element %q returned %d times", g, k)}
 		}
 		if !expSet[g] {
 			if matched && allSet[g] {
-				return &chainVerdict{"match", fmt.Sprintf("element %q does not match the pattern but was returned", g)}
+				return &chainVerdict{what: "match", detail: fmt.Sprintf("element %q does not match the pattern but was returned", g)}
 			}
-			return &chainVerdict{"foreign", fmt.Sprintf("element %q is not in the scanned table/type/collection", g)}
+			return &chainVerdict{what: "foreign", detail: fmt.Sprintf("element %q is not in the scanned table/type/collection", g)}
 		}
 	}
 	for _, e := range expected {
@@ -318,7 +317,7 @@ func judgeStream(got []string, expected []string, all []string, partOf func(stri
 			if matched {
 				what = "match"
 			}
-			return &chainVerdict{what, fmt.Sprintf("element %q exists (and matches) but was never returned", e)}
+			return &chainVerdict{what: what, detail: fmt.Sprintf("element %q exists (and matches) but was never returned", e)}
 		}
 	}
 	last := map[int]string{}
@@ -327,7 +326,7 @@ func judgeStream(got []string, expected []string, all []string, partOf func(stri
 		p := partOf(g)
 		if has[p] {
 			if (!reverse && !(g > last[p])) || (reverse && !(g < last[p])) {
-				return &chainVerdict{"order", fmt.Sprintf("within partition %d element %q follows %q", p, g, last[p])}
+				return &chainVerdict{what: "order", detail: fmt.Sprintf("within partition %d element %q follows %q", p, g, last[p]), a: last[p], b: g}
 			}
 		}
 		last[p], has[p] = g, true
@@ -343,17 +342,62 @@ func sortedCopy(xs []string) []string {
 
 var scanFired sync.Map
 
-func reportScan(c *vc.Ctx, v *chainVerdict, form string, w scanWitness) {
-	sig := "proto-scan-" + v.what + "/" + form
+// pebbleFailed remembers the chains that (also) fail on pebble: a mem-only
+// failure of a reverse chain is then attributable to the mem engine.
+var pebbleFailed sync.Map
+
+// zeroExt: one name is the other extended by bytes starting with 0x00.
+func zeroExt(a, b string) bool {
+	if len(a) > len(b) {
+		a, b = b, a
+	}
+	return len(b) > len(a) && strings.HasPrefix(b, a) && b[len(a)] == 0
+}
+
+func hasZeroExtPair(names []string) bool {
+	set := map[string]bool{}
+	for _, n := range names {
+		set[n] = true
+	}
+	for _, n := range names {
+		if i := strings.IndexByte(n, 0); i > 0 && set[n[:i]] {
+			return true
+		}
+	}
+	return false
+}
+
+func reportScan(c *vc.Ctx, v *chainVerdict, form string, w scanWitness, chainID string, reverse bool, all []string) {
 	c.Ev.Count("proto_violating_chains", 1)
-	// one violation per command form: the other symptoms (missing / duplicate /
-	// no termination, with or without COUNT or MATCH) of a form whose smallest
-	// chain already fails are consequences of the same broken cursor
 	base := form
 	if i := strings.IndexByte(base, '/'); i >= 0 {
 		base = base[:i]
 	}
-	if _, dup := scanFired.LoadOrStore(base, true); dup {
+	if w.Engine == "pebble" {
+		pebbleFailed.Store(chainID, true)
+	}
+	// input class of the listed mem-engine defect: reverse iteration on mem visits
+	// a key before the key that extends it by 0x00
+	class := ""
+	if w.Engine == "mem" && reverse {
+		_, alsoPebble := pebbleFailed.Load(chainID)
+		switch {
+		case v.what == "order" && zeroExt(v.a, v.b):
+			class = "mem-reverse-0x00"
+		case (v.what == "duplicate" || v.what == "missing") && !alsoPebble && hasZeroExtPair(all):
+			class = "mem-reverse-0x00"
+		}
+	}
+	sig := "proto-scan-" + v.what + "/" + form
+	dedupe := base
+	if class != "" {
+		sig = "proto-scan-" + v.what + "/" + base + "/" + class
+		dedupe = base + "|" + class
+	}
+	// one violation per command form (and class): the other symptoms (missing /
+	// duplicate / no termination, with or without COUNT or MATCH) of a form
+	// whose smallest chain already fails are consequences of the same cause
+	if _, dup := scanFired.LoadOrStore(dedupe, true); dup {
 		c.Ev.Count("proto_violating_chains_same_form_not_repeated", 1)
 		return
 	}
@@ -408,6 +452,10 @@ func scanKeyChainIn(c *vc.Ctx, conn *Conn, eng string, pop *scanPop, table, base
 		cursor = aboveAllCursor(pop.n)
 	}
 	w := scanWitness{Engine: eng, Partitions: pop.n, Populate: pop.populate, Expected: quoteAll(sortedCopy(expected))}
+	chainID := fmt.Sprintf("%s|%s|n%d|c%d|p%s", form, table, pop.n, cnt, pat)
+	reportScan := func(c *vc.Ctx, v *chainVerdict, form string, w scanWitness) {
+		reportScan(c, v, form, w, chainID, reverse, all)
+	}
 	var got []string
 	type page struct {
 		cursor string
@@ -426,7 +474,7 @@ func scanKeyChainIn(c *vc.Ctx, conn *Conn, eng string, pop *scanPop, table, base
 		c.Ev.Count("proto_pages", 1)
 		if rp.IsErr() || rp.Kind != '*' || len(rp.Arr) != 2 || rp.Arr[1].Kind != '*' {
 			w.Pages = append(w.Pages, rp.Short(200))
-			reportScan(c, &chainVerdict{"error", "page answered " + rp.Short(160)}, form, w)
+			reportScan(c, &chainVerdict{what: "error", detail: "page answered " + rp.Short(160)}, form, w)
 			return
 		}
 		var keys []string
@@ -442,7 +490,7 @@ func scanKeyChainIn(c *vc.Ctx, conn *Conn, eng string, pop *scanPop, table, base
 		}
 		if pg+1 >= bound {
 			w.Got = quoteAll(got)
-			reportScan(c, &chainVerdict{"noterm", fmt.Sprintf("no empty cursor after %d pages for a population of %d", pg+1, len(all))}, form, w)
+			reportScan(c, &chainVerdict{what: "noterm", detail: fmt.Sprintf("no empty cursor after %d pages for a population of %d", pg+1, len(all))}, form, w)
 			return
 		}
 	}
@@ -484,7 +532,7 @@ func scanKeyChainIn(c *vc.Ctx, conn *Conn, eng string, pop *scanPop, table, base
 		}
 		if strings.Join(sortedCopy(keys), "\x00") != strings.Join(sortedCopy(pages[i].keys), "\x00") {
 			w.Chain = append(w.Chain, qargv(B(args...)))
-			reportScan(c, &chainVerdict{"cursor-reuse", fmt.Sprintf("cursor of page %d used again returns %v, the first time it returned %v", i, quoteAll(keys), quoteAll(pages[i].keys))}, form, w)
+			reportScan(c, &chainVerdict{what: "cursor-reuse", detail: fmt.Sprintf("cursor of page %d used again returns %v, the first time it returned %v", i, quoteAll(keys), quoteAll(pages[i].keys))}, form, w)
 			return
 		}
 	}
@@ -527,6 +575,10 @@ func scanCollChain(c *vc.Ctx, conn *Conn, eng string, pop *scanPop, base, coll s
 		cursor = "\xff\xff\xff\xff"
 	}
 	w := scanWitness{Engine: eng, Partitions: pop.n, Populate: pop.populate, Expected: quoteAll(sortedCopy(expected))}
+	chainID := fmt.Sprintf("%s|%s|n%d|c%d|p%s", form, coll, pop.n, cnt, pat)
+	reportScan := func(c *vc.Ctx, v *chainVerdict, form string, w scanWitness) {
+		reportScan(c, v, form, w, chainID, reverse, all)
+	}
 	var got []string
 	type page struct {
 		cursor string
@@ -545,7 +597,7 @@ func scanCollChain(c *vc.Ctx, conn *Conn, eng string, pop *scanPop, base, coll s
 		c.Ev.Count("proto_pages", 1)
 		if rp.IsErr() || rp.Kind != '*' || len(rp.Arr) != 2 || rp.Arr[1].Kind != '*' || len(rp.Arr[1].Arr)%stride != 0 {
 			w.Pages = append(w.Pages, rp.Short(200))
-			reportScan(c, &chainVerdict{"error", "page answered " + rp.Short(160)}, form, w)
+			reportScan(c, &chainVerdict{what: "error", detail: "page answered " + rp.Short(160)}, form, w)
 			return
 		}
 		var keys []string
@@ -561,7 +613,7 @@ func scanCollChain(c *vc.Ctx, conn *Conn, eng string, pop *scanPop, base, coll s
 		}
 		if pg+1 >= bound {
 			w.Got = quoteAll(got)
-			reportScan(c, &chainVerdict{"noterm", fmt.Sprintf("no empty cursor after %d pages for a population of %d", pg+1, len(all))}, form, w)
+			reportScan(c, &chainVerdict{what: "noterm", detail: fmt.Sprintf("no empty cursor after %d pages for a population of %d", pg+1, len(all))}, form, w)
 			return
 		}
 	}
@@ -596,7 +648,7 @@ func scanCollChain(c *vc.Ctx, conn *Conn, eng string, pop *scanPop, base, coll s
 		}
 		if strings.Join(keys, "\x00") != strings.Join(pages[i].keys, "\x00") {
 			w.Chain = append(w.Chain, qargv(B(args...)))
-			reportScan(c, &chainVerdict{"cursor-reuse", fmt.Sprintf("cursor of page %d used again returns %v, the first time it returned %v", i, quoteAll(keys), quoteAll(pages[i].keys))}, form, w)
+			reportScan(c, &chainVerdict{what: "cursor-reuse", detail: fmt.Sprintf("cursor of page %d used again returns %v, the first time it returned %v", i, quoteAll(keys), quoteAll(pages[i].keys))}, form, w)
 			return
 		}
 	}
